@@ -2,7 +2,7 @@
 import os
 
 from . import core
-from .rules import stdio, cert, mark, exact, optstore, inval, idx, atomic, own, tokens, idxclass, copy, pair, structfree, buf, div, counter, sentinel, appendinit, verdict, basismap, zerotol, escape, lenclass, djsym, ndet, useb4check, norms, opencheck, shell, esolver
+from .rules import stdio, cert, mark, exact, optstore, inval, idx, atomic, own, tokens, idxclass, copy, pair, structfree, buf, div, counter, sentinel, appendinit, verdict, basismap, zerotol, escape, lenclass, djsym, ndet, useb4check, norms, opencheck, shell, esolver, errlost
 from .effects import Effects
 
 FIX = os.path.join(os.path.dirname(os.path.abspath(__file__)), "fixtures")
@@ -246,7 +246,8 @@ PROPS = {
                        "which deletions keep the basis/cache valid; history-dependent lifetime of pricing-norm arrays",
     },
     "C07": {
-        "rules": [lambda prog, tier: idx.run(prog), lambda prog, tier: atomic.run(prog), lambda prog, tier: shell.run(prog, shared_eff(prog))],
+        "rules": [lambda prog, tier: idx.run(prog), lambda prog, tier: atomic.run(prog), lambda prog, tier: shell.run(prog, shared_eff(prog)),
+                  lambda prog, tier: errlost.run(prog, scope_funcs=set(prog.reachable(sorted(f.key for f, _ in inval.api_functions(prog)))), floor=150)],
         "technique": "interprocedural taint of API index/selector arguments + path-sensitive must-analysis of range-guard facts "
                      "(right dimension, right strictness) on clang::CFG with callee preconditions propagated to the API boundary and "
                      "call-site specialisation on constant selectors; write-before-rejection analysis over effect summaries",
@@ -394,7 +395,9 @@ PROPS = {
     "C11": {
         "rules": [lambda prog, tier: buf.run(prog, scope_funcs=set(prog.reachable([prog.require_fn(r).key for r in
                                                                                  ("mpq_QSread_prob", "mpq_QSget_prob", "mpq_QSread_basis", "mpq_QSread_and_load_basis")]))),
-                  lambda prog, tier: div.run(prog), lambda prog, tier: counter.run(prog)],
+                  lambda prog, tier: div.run(prog), lambda prog, tier: counter.run(prog),
+                  lambda prog, tier: errlost.run(prog, scope_funcs=set(prog.reachable([prog.require_fn(r).key for r in
+                                                                                     ("mpq_QSread_prob", "mpq_QSget_prob", "mpq_QSread_basis", "mpq_QSread_and_load_basis")])), floor=60)],
         "technique": "census and classification of buffer-writing calls in the reader call-graph closures (destination array sizes from the "
                      "type-resolved program, format-length bounds); dominance analysis for zero tests of GMP divisors and for counter guards",
         "explanation": "Decides three structural clauses of C11 for every function reachable from the LP/MPS/basis readers: (R-BUF) every "
@@ -503,6 +506,8 @@ PROPS = {
     },
     "C19": {
         "rules": [lambda prog, tier: esolver.run_exit(prog),
+                  lambda prog, tier: errlost.run(prog, scope_funcs={prog.require_fn("main", unit="esolver/esolver.c").key, prog.require_fn("QSexact_print_sol").key,
+                                                                   prog.require_fn("QSexact_solver").key}, floor=3),
                   lambda prog, tier: opencheck.run(prog, scope=lambda f: f.unit.startswith("esolver/") or f.name in ("QSexact_print_sol", "mpq_QSwrite_basis", "mpq_ILLlib_writebasis", "mpq_QSread_prob", "mpq_ILLlib_readbasis")),
                   lambda prog, tier: esolver.run_statusword(prog),
                   lambda prog, tier: esolver.run_nzfilter(prog),
